@@ -15,7 +15,7 @@ MC_INVS = {
     "C11": ["I_TypeOK", "I_RescaleNormalises", "I_FlagsComplete", "I_OutDepsOK"],
     "C17": ["I_TypeOK", "I_LogsOK"],
 }
-TRACE_INVS = ["TI_Roles", "TI_Reads", "TI_Indep", "TI_BM", "TI_Narrow", "TI_Sector", "TI_Flags", "TI_Logs", "TI_OutDeps"]
+TRACE_INVS = ["TI_Roles", "TI_Reads", "TI_Indep", "TI_BM", "TI_Narrow", "TI_Sector", "TI_Flags", "TI_Logs", "TI_OutDeps", "TI_Kin"]
 
 
 def mc_sample(prop, tier, wd):
